@@ -597,7 +597,7 @@ func TestC18(t *testing.T) {
 		}
 	})
 
-	rapidCheck(t, "C18/random", tier(800, 100000), func(rt *rapid.T) {
+	rapidCheck(t, "C18/random", tier(800, 500000), func(rt *rapid.T) {
 		format := rapid.SampledFrom(allFormats).Draw(rt, "format")
 		doc := docGen(format).Draw(rt, "doc")
 		if _, err := readFormat(format, bytes.NewReader(doc), readOpts{}); err != nil || len(doc) == 0 {
